@@ -883,6 +883,14 @@ impl LdapConnAsync {
                 },
                 resp = self.stream.next() => {
                     let (id, (tag, controls)) = match resp {
+                        // In single-op mode, the end of the stream while the operation is
+                        // still waiting for its response is a failure of that operation.
+                        None if matches!(mode, LoopMode::SingleOp) && !self.resultmap.is_empty() => {
+                            return Err(LdapError::from(io::Error::new(
+                                io::ErrorKind::UnexpectedEof,
+                                "connection closed",
+                            )));
+                        },
                         None => break,
                         Some(Err(e)) => {
                             warn!("socket receive error: {}", e);
@@ -933,7 +941,11 @@ impl LdapConnAsync {
                 },
             };
             if let LoopMode::SingleOp = mode {
-                break;
+                // The single operation is over when its response has been handed over; a message
+                // for another id (e.g., an unsolicited notification) doesn't end the turn.
+                if self.resultmap.is_empty() {
+                    break;
+                }
             }
         }
         Ok(self)
